@@ -46,7 +46,7 @@ def enc_type(t):
         out = ['tuple']
         for x in t:
             h = head(x)
-            out.append('any' if x is typing.Any else h if h in L.PRIMS else '?')
+            out.append('any' if x is typing.Any else h if h in L.PRIMS + ['list', 'tuple', 'none'] else '?')
         return out
     h = head(t)
     if h is not None:
